@@ -127,9 +127,15 @@ def enum_labels(ctx, case):
     enum = protocol_ref.enum_for(best, iface, mname, arg)
     v = ctx.fresh_bv('value', 33)
     a = wl.Arg.Int(v)
-    a.resolve(None, _Msg(iface, mname), k)
+    if arg.get('type') == 'array' and ctx.choose([False, True], 'as_array_element'):
+        # an enum-tagged array (xdg_toplevel.configure states ...): GDB mode delivers the elements, each is annotated like a scalar
+        arr = wl.Arg.Array([wl.Arg.Int(0), a])
+        arr.resolve(None, _Msg(iface, mname), k)
+        ctx.check('argument name', arr.name == arg['name'])
+    else:
+        a.resolve(None, _Msg(iface, mname), k)
+        ctx.check('argument name', a.name == arg['name'])
     labels = getattr(a, 'labels', None)
-    ctx.check('argument name', a.name == arg['name'])
     if enum is None:
         ctx.check('no enum declared -> no labels', labels is None)
         return
@@ -203,6 +209,47 @@ def version_precedence(ctx, case):
         if ki:
             for i in range(ki[0]):
                 ctx.check('among equal versions the first loaded stays', vs[i] < kept.version)
+    finally:
+        protocol.parse_protocol = saved_pp
+        protocol.interfaces.clear()
+        protocol.interfaces.update(saved)
+
+
+def cross_interface_enum(ctx, case):
+    """an argument whose enum belongs to ANOTHER interface (`enum="owner.mode"`) is decoded with the description of that interface that is in force -
+    the highest version, whatever file it came from and whatever the load order - also when the file of the referencing interface bundles an older copy"""
+    from collections import OrderedDict
+    from core.wl import protocol
+    from core.output import Output, stream
+    saved = dict(protocol.interfaces)
+    saved_pp = protocol.parse_protocol
+    protocol.interfaces.clear()
+    try:
+        def owner(version, entries):
+            enum = protocol.Enum('mode', False, OrderedDict((n, protocol.EnumEntry(n, v)) for n, v in entries))
+            return protocol.Interface('owner', version, OrderedDict(), OrderedDict([('mode', enum)]))
+        o_old_v = ctx.fresh_int('bundled_owner_version', 1, 1000)
+        o_new_v = ctx.fresh_int('other_owner_version', 1, 1000)
+        bundled = owner(o_old_v, [('slow', 1)])
+        other = owner(o_new_v, [('slow', 1), ('turbo', 2)])
+        user = protocol.Interface('user', 3, OrderedDict([('set_mode', protocol.Message('set_mode', False, OrderedDict([('mode', protocol.Arg('mode', 'uint', None, 'owner.mode'))])))]), OrderedDict())
+        protos = {'shell.xml': protocol.Protocol('shell', 'shell.xml', OrderedDict([('user', user), ('owner', bundled)])),
+                  'owner.xml': protocol.Protocol('owner', 'owner.xml', OrderedDict([('owner', other)]))}
+        protocol.parse_protocol = lambda f: protos[f]
+        out = Output(False, False, stream.Null(), stream.Null())
+        order = ctx.choose([('shell.xml', 'owner.xml'), ('owner.xml', 'shell.xml')], 'load_order')
+        for f in order:
+            protocol.load(f, out)
+        # the description in force: highest version, the first loaded among equals
+        if order[0] == 'shell.xml':
+            newer_wins = bool(o_new_v > o_old_v)
+        else:
+            newer_wins = bool(o_new_v >= o_old_v)
+        ctx.check('the owner description in force is the highest version', protocol.interfaces.get('owner') is (other if newer_wins else bundled))
+        val = ctx.choose([0, 1, 2, 3], 'value')
+        want = {1: ['slow'], 2: ['turbo'] if newer_wins else ['INVALID ENUM VALUE']}.get(val, ['INVALID ENUM VALUE'])
+        got = protocol.look_up_enum('user', 'set_mode', 0, val)
+        ctx.check('user.set_mode(mode=%d) is labelled from the owner description in force' % val, got == want)
     finally:
         protocol.parse_protocol = saved_pp
         protocol.interfaces.clear()
@@ -380,6 +427,8 @@ def obligations(tier):
         Ob('version-precedence', 'symx', 'protocol.load keeps the description with the greatest version whatever the order (versions symbolic)', FUNCS[5:6],
            'k = 2, 3, 4 descriptions of one interface, versions in [1, 1000)', version_precedence, cases=[2, 3, 4] if tier != 'quick' else [2, 3],
            stubs=['parse_protocol replaced by synthetic Protocol objects']),
+        Ob('cross-interface-enum', 'symx', 'an argument whose enum belongs to another interface is decoded with that interface\'s description in force (highest version), also when the referencing file bundles an older copy', FUNCS[:6],
+           'symbolic versions in [1,1000) x 2 load orders x values 0..3', cross_interface_enum, cases=[None], stubs=['parse_protocol replaced by synthetic Protocol objects']),
         Ob('reload-after-lookup', 'symx', 'lookups reflect the descriptions in force after a later load of a higher version / a dump and reload', FUNCS[:6] + ['core.wl.protocol:dump_all'],
            '2 versions x lookup before or not x 3 reload orders', reload_after_lookup, cases=[None], stubs=['parse_protocol replaced by synthetic Protocol objects']),
         Ob('labels-through-the-decoder', 'symx', 'sessions of real log lines (nil in different slots, enum and plain integers) through parse.message and Message.resolve in any order: labels depend on the line alone',
